@@ -143,6 +143,25 @@ def gen_pairs(ctx, n):
         x, y = [d1, other], [other, d2]
         if FAM.in_universe(x, y):
             out.append((x, y))
+    # equal dictionaries whose keys have one digest (tuples that are permutations of each other), listed in another insertion order, as items of
+    # an order-ignored list: equal as nested sets whatever the knobs (implementation only: tuple keys are outside the path model)
+    for (ka, kb) in [((1, 2), (2, 1)), (('a', 'b'), ('b', 'a')), ((1, 2, 3), (3, 1, 2)), ((0, (1, 2)), ((2, 1), 0))]:
+        d1 = {ka: 'a', kb: 'b', 'z': 1}
+        d2 = {kb: 'b', 'z': 1, ka: 'a'}
+        fill = ctx.rng.choice([[7], ['q', 3], []])
+        w = ctx.rng.choice([lambda v: v, lambda v: {'rows': v}, lambda v: [v, 0]])
+        out.append((w([d1] + fill), w(list(reversed(fill)) + [d2])))
+        out.append((w([d1, {ka: 'x'}]), w([{ka: 'x'}, d2])))
+    # an item that moves from one list to a sibling list (the same items are added in one place and removed in the other)
+    for _ in range(max(6, n // 12)):
+        a_, b_, c_ = ctx.rng.sample(range(10, 99), 3)
+        base_x = [ctx.rng.randint(1, 9) for _ in range(2)]; base_y = [ctx.rng.randint(1, 9) for _ in range(2)]
+        x = {'x': [a_] + base_x, 'y': [b_, a_] + base_y}
+        y = {'x': [c_, b_] + base_x, 'y': [c_] + base_y}
+        w = ctx.rng.choice([lambda v: v, lambda v: [v, 0], lambda v: {'k': v}])
+        if FAM.in_universe(x, y):
+            out.append((w(x), w(y)))
+    out.append(({'x': [10, 1, 2], 'y': [11, 10, 3, 4]}, {'x': [50, 11, 1, 2], 'y': [50, 3, 4]}))
     # dictionaries compared by digest (items of a list) whose difference sits under a falsy key: 0, '', None, False, 0.0, ()
     for fk in [0, '', None, False, 0.0, ()]:
         for kind in range(3):
